@@ -90,6 +90,11 @@ def pool_case(op, prefix, H, W, k, s, ceil, seed, dt="i32", ev=False):
 
 def softmax_case(op, shape, axis, seed, dt, ev=False):
     arr = (iarr if dt == "i32" else farr)(shape, seed, -3, 4)
+    # every 3rd case is translated far from the origin (softmax is translation invariant along the axis; the exponentials of the raw
+    # values under- / overflow there, so this is where the max-subtraction of the implementation matters)
+    off = (0, 0, -800, 0, 0, 800, 0, 0, -90, 0, 0, 90)[mix(seed) % 12]
+    if off:
+        arr = dict(arr, data=[v + off for v in arr["data"]])
     return pipe([arr], [(op, [0], {"axis": axis})], eval=ev)
 
 
@@ -587,6 +592,8 @@ class C17(Prop):
                 out.append("negative_axis")
             if op != "cosine_similarity":
                 out.append("dt:" + case["arrays"][0].get("dt", "i32"))
+                m = max(abs(v) for v in case["arrays"][0]["data"])
+                out.append("far_from_origin" if m > 700 else "offset_90" if m > 50 else "near_origin")
         if "eps" in a:
             out.append("eps_default" if a["eps"] is None else "eps_given")
         if case.get("eval"):
